@@ -38,6 +38,9 @@ inductive LoopMove (s s' : St) : Prop
       (h3 : s'.finished = s.finished)
   | die (hp : s.phase = .returned) (he : s.elt = true) (hm : s.mtx = false) (hp' : s'.phase = .dead)
       (hl : s'.loopPtr = false) (ha : s'.alive = false) (hw : s'.waiting = false) (hf : s'.finished = true)
+  | again (hp : s.phase = .returned) (he : s.elt = false) (hp' : s'.phase = .pre)
+      (h1 : s'.loopPtr = s.loopPtr) (h2 : s'.waiting = s.waiting) (ha : s'.alive = s.alive)
+      (h3 : s'.finished = s.finished)
 
 theorem stepLoop_move (s : St) :
     (stepLoop s).thr = s.thr ∧ (stepLoop s).elt = s.elt ∧ (stepLoop s).mtx = s.mtx ∧
@@ -56,6 +59,7 @@ theorem stepLoop_move (s : St) :
         | (apply LoopMove.born <;> simp_all; done)
         | (apply LoopMove.publish <;> simp_all; done)
         | (apply LoopMove.die <;> simp_all; done)
+        | (apply LoopMove.again <;> simp_all; done)
         | (apply LoopMove.run <;> simp_all [running, hasLoop]; done))
     | (refine ⟨rfl, rfl, rfl, rfl, ?_⟩
        first
@@ -63,6 +67,7 @@ theorem stepLoop_move (s : St) :
         | (apply LoopMove.born <;> simp_all; done)
         | (apply LoopMove.publish <;> simp_all; done)
         | (apply LoopMove.die <;> simp_all; done)
+        | (apply LoopMove.again <;> simp_all; done)
         | (apply LoopMove.run <;> simp_all [running, hasLoop]; done)))
 
 /-- the shared `EventLoopThread` state as a tuple: elt, mtx, loopPtr, waiting, alive, phase, uafDtor, finished -/
@@ -206,6 +211,24 @@ theorem loopMove_inv {s s' : St} (h : EltInv s) (ht : s'.thr = s.thr) (he : s'.e
     · intro hf; simp [hel] at hf
     · exact h8
     · simp
+    · intro k hk hi hd; simp
+  | again hp hel hp' e1 e2 ha e3 =>
+    have hnl : s.loopPtr = false := by
+      cases hl : s.loopPtr with
+      | false => rfl
+      | true => have := (h4 hl).2; simp [hel] at this
+    refine ⟨?_, ?_, ?_, ?_, ?_, ?_, ?_, ?_, ?_, ?_⟩ <;> simp only [ht, hL, he, hm, hu, hp', ha, e1, e2, e3, FinOk]
+    · exact h1
+    · exact h2
+    · exact h3
+    · intro hl; simp [hnl] at hl
+    · intro he'; simp [hel] at he'
+    · rw [h6, hp]; simp [hasLoop]
+    · intro hf; exact ⟨by simp [hasLoop], (h7 hf).2⟩
+    · exact h8
+    · obtain ⟨a, b⟩ := h9
+      refine ⟨fun hw => ⟨(a hw).1, by simp⟩, ?_⟩
+      rw [b, hp]; simp
     · intro k hk hi hd; simp
 
 theorem stepLoop_eltInv {s : St} (h : EltInv s) : EltInv (stepLoop s) := by
@@ -485,7 +508,7 @@ theorem run_eltInv {s : St} (sched : List Nat) (h : EltInv s) : EltInv (run s sc
   | nil => exact h
   | cons k rest ih => exact ih (step_eltInv k h)
 
-theorem init_eltInv (elt wl : Bool) (tbl) (dtbl) (pre) (progs) : EltInv (init elt wl tbl dtbl pre progs) := by
+theorem init_eltInv (elt wl : Bool) (tbl) (dtbl) (pre) (again) (progs) : EltInv (init elt wl tbl dtbl pre again progs) := by
   cases elt <;>
   (refine ⟨?_, ?_, ?_, ?_, ?_, ?_, ?_, ?_, ?_, ?_⟩ <;> simp [init, inH, inElt, running, hasLoop, FinOk])
 
@@ -549,7 +572,9 @@ theorem stuck_analysis {s : St} (hq : QuitInv s) (he : EltInv s) (hs : Stuck s) 
       left
       cases hel : s.elt with
       | true => simp [loopEnabled, hph, hel, hm] at hLoop
-      | false => simp [finished, hel, St.L, hph]
+      | false =>
+        simp [loopEnabled, hph, hel] at hLoop
+        simp [finished, hel, St.L, hph, hLoop]
     | polling =>
       right
       simp [loopEnabled, hph, pollReady] at hLoop
